@@ -538,7 +538,8 @@ def State.saveSubBlock : Nat → State → Nat → State
         | none => st
         | some ob =>
           let (st1, ok) := st.saveBlock ob
-          if !ok then st1 else State.saveSubBlock fuel st1 o) s
+          -- a refused orphan is dropped from the pool
+          if !ok then st1.orphanDelete o else State.saveSubBlock fuel st1 o) s
 
 /-- `Chain.processBlock` -/
 def State.processBlock (s : State) (b : Header) : State × Res :=
